@@ -29,7 +29,7 @@ LEVEL_TEXT = {
  "C17": "All 256 appliance type bytes x letter case x reply version are enumerated; ids, ports, serials, names, inner addresses, source ports, host counts and single-host discovery are sampled. The probe itself is verified by every simulated host.",
  "C18": "All arrival orders of the copies of <= 3 hosts x <= 2 copies are enumerated (with bad-class assignments sampled), every bad class next to good hosts in every position; larger multisets, copies at the window edge and second runs in one process are sampled.",
  "C19": "Seeded search over accounts/passwords, token lists with near-miss ids, per-request fault sequences checked against a retry model, forced re-logins against a rotating-loginId server, and the discover -> cloud -> handshake -> refresh pipeline with 1-3 concurrent V3 hosts in either udpid byte order, optionally twice with the session dropped.",
- "C20": "Seeded search over valid command lines (every writable setting, names in random case, values, boolean spellings, 1-3 settings) against V2/V3 devices with random settable states (some chatty), and a complete pass over a catalogue of invalid names/values alone and next to valid settings; judged by exit status, device state delta and connection attempts.",
+ "C20": "Seeded search over valid command lines (every writable setting, names in random case, values, boolean spellings, 1-3 settings) against V2/V3 devices with random settable states (some chatty), and a complete pass over a catalogue of invalid names/values alone and next to valid settings; judged by exit status, device state delta and connection attempts. With --capabilities also display_on lines; one recorded known-finding shape (unnamed fan speed rewritten as AUTO after the display toggle's forced refresh) is excluded from the verdict and reported separately.",
 }
 
 props = [json.loads(l) for l in open(os.path.join(VERIF, "properties.jsonl"))]
